@@ -4,6 +4,7 @@ from __future__ import annotations
 
 import faulthandler
 import importlib
+import hashlib
 import json
 import multiprocessing
 import os
@@ -298,7 +299,9 @@ def minimise(prop, plan, oracle, jobs, max_runs=400, max_s=120):
 def write_replay(pid, plan, violation, digest, meta):
     d = os.environ.get("QSIM_REPLAY_DIR") or os.path.join(core.VERIF_DIR, "replays")
     os.makedirs(d, exist_ok=True)
-    name = f"{pid}-{plan.get('run_seed', 0):016x}-{violation['oracle']}.json"
+    # one file per (run, oracle, class of failure): the class signature is part of the name
+    sig4 = hashlib.blake2b(str(violation.get("sig", "")).encode(), digest_size=2).hexdigest()
+    name = f"{pid}-{plan.get('run_seed', 0):016x}-{violation['oracle']}-{sig4}.json"
     name = re.sub(r"[^A-Za-z0-9_.\-]", "_", name)
     path = os.path.join(d, name)
     with open(path, "w") as f:
